@@ -13,21 +13,37 @@ Shared machinery of the server-side properties C02, C03, C04, C05.
 * the `expectation` oracle used by the monitors: written from the property texts and from Python's own
   call binding (`f(*params)` on a recorder with the same signature) — it does not look at the model.
 
-Descriptor shapes
+Descriptor shapes (all JSON-able)
   sig       [names, ndefaults, star, kw]
-  beh       ["ret", value] | ["echo"] (dispatch functions only: returns params) | ["raise", class name, text]
+  beh       ["ret", value] | ["echo"] (dispatch functions only: returns params)
+            | ["raise", class name, text]                 raised by a helper called from the function body (depth 2)
+            | ["raise", class name, text | None, {"depth": 1|2|3, "args": [..]}]
+                                                          depth 1: `raise` in the generated def's own frame; 3: two helpers
+                                                          down; "args": the exception is built as cls(*args) (markers below)
+            | ["expr", "concat"|"len"|"miscall"|"nonecall"]   a TypeError produced by an expression of the def's own body
+            | ["opaque", kind, spec]                      a callable that is not a plain generated def:
+                                                          "builtin" name | "partial" {sig, beh, bound} | "object" {sig, beh}
+                                                          | "deco" {sig, beh}; its behaviour on each argument value is
+                                                          observed on a twin by Python itself (see observe_opaque)
   callable  [sig, beh]
-  attr      [callable | None, [[name, attr], ...]]
+  attr      [callable | None, [[name, attr], ...]]  |  "none" (an attribute bound to None)
   dispfn    beh | ["table", {method: beh}, default beh]
   registry  {"funcs": [[name, callable], ...], "inst": None | {"dispatch": dispfn | None, "attrs": [[name, attr], ...]},
              "custom": dispfn | None}
-  the value "$RaisingSerialize" stands for an instance whose `_serialize` raises ValueError.
+  value markers: "$RaisingSerialize" an instance whose `_serialize` raises ValueError; "$TupleKey" {(1, 2): 3};
+  "$Set" {1}; "$BigInt" 10**5000 (json.dumps raises ValueError); exception argument markers "$bytes", "$opaque",
+  "$frozenset", "$tuple", "$exc".
 """
+import builtins
 import decimal
 import fractions
+import functools
+import inspect
 import io
 import itertools
+import email.message
 import json
+import math
 import queue
 import re
 import threading
@@ -69,15 +85,85 @@ class Bean(object):
         self.x = x
 
 
-EXC = dict((c.__name__, c) for c in [
-    ValueError, TypeError, KeyError, AttributeError, RuntimeError, ZeroDivisionError, IndexError, LookupError,
-    ArithmeticError, NotImplementedError, Exception, AssertionError, MyError, MyTypeError, MyAttrError])
+class Opaque(object):
+    """A value without JSON form and with an address-free repr (exception argument)."""
+
+    def __repr__(self):
+        return "<opaque>"
+
+
+# Every *ordinary* builtin exception class (subclass of Exception) plus the three user classes.  Outside the domain of the
+# properties (C05: "single-line messages ... no SyntaxError-style multi-part rendering"): the SyntaxError family and
+# exception groups; SystemExit / KeyboardInterrupt / GeneratorExit are not subclasses of Exception ("ordinary").
+MULTIPART = ("SyntaxError", "IndentationError", "TabError", "ExceptionGroup", "BaseExceptionGroup")
+EXC = dict((c.__name__, c) for c in vars(builtins).values()
+           if isinstance(c, type) and issubclass(c, Exception) and c.__name__ not in MULTIPART)
+EXC.update((c.__name__, c) for c in [MyError, MyTypeError, MyAttrError])
+# classes whose constructor wants a fixed argument list
+SPECIAL_ARGS = {
+    "UnicodeDecodeError": ["utf-8", "$bytes", 0, 1, "invalid start byte"],
+    "UnicodeEncodeError": ["ascii", "\u00e9", 0, 1, "ordinal not in range(128)"],
+    "UnicodeTranslateError": ["\u00e9", 0, 1, "character maps to <undefined>"],
+}
 
 RAISING = "$RaisingSerialize"
+TUPLEKEY = "$TupleKey"
+SETVAL = "$Set"
+BIGINT = "$BigInt"
+VALUE_MARKERS = {RAISING: lambda: RaisingSerialize(), TUPLEKEY: lambda: {(1, 2): 3}, SETVAL: lambda: {1},
+                 BIGINT: lambda: 10 ** 5000}
+ARG_MARKERS = {"$bytes": lambda: b"\xff\x00", "$opaque": lambda: Opaque(), "$frozenset": lambda: frozenset([1]),
+               "$tuple": lambda: (1, "x"), "$exc": lambda: ValueError("inner")}
 
 
 def materialise(v):
-    return RaisingSerialize() if v == RAISING and isinstance(v, str) else v
+    if isinstance(v, str) and v in VALUE_MARKERS:
+        return VALUE_MARKERS[v]()
+    return v
+
+
+def make_exc(beh):
+    """The exception instance of a `raise` behaviour."""
+    cls = EXC[beh[1]]
+    opts = beh[3] if len(beh) > 3 else {}
+    args = opts.get("args")
+    if args is None and beh[1] in SPECIAL_ARGS and beh[2] is None:
+        args = SPECIAL_ARGS[beh[1]]
+    if args is not None:
+        return cls(*[ARG_MARKERS[a]() if isinstance(a, str) and a in ARG_MARKERS else a for a in args])
+    return cls(beh[2])
+
+
+def beh_depth(beh):
+    return (beh[3] if len(beh) > 3 else {}).get("depth", 2)
+
+
+EXPR_SOURCE = {"concat": 'return "item-" + 5', "len": "return len(5)", "miscall": "return _noargs(1)",
+               "nonecall": "return _none()"}
+
+
+def _noargs():
+    return None
+
+
+def expr_error(kind):
+    """The TypeError the expression of an `expr` behaviour produces (evaluated by Python, not taken from the code under test)."""
+    env = {"_noargs": _noargs, "_none": None}
+    exec("def _e():\n    %s\n" % EXPR_SOURCE[kind], env)  # noqa: S102
+    try:
+        env["_e"]()
+    except TypeError as ex:
+        return ex
+    raise AssertionError("expression %s did not raise" % kind)
+
+
+def raised_exception(beh):
+    """The exception a raising behaviour produces (`raise` / `expr`), else None."""
+    if beh[0] == "raise":
+        return make_exc(beh)
+    if beh[0] == "expr":
+        return expr_error(beh[1])
+    return None
 
 
 class ModelObj(object):
@@ -113,14 +199,32 @@ def from_model(tree):
 # descriptors -> model tokens
 
 
-def _enc_beh(b):
+def _enc_exc(ex, depth):
+    # the model is given the class of the instance (OSError(2, ..) is a FileNotFoundError) and `str(exception)`
+    return ["raise", type(ex).__name__, str(ex), isinstance(ex, TypeError), isinstance(ex, AttributeError), depth]
+
+
+def _model_value(v):
+    """A result as the model is given it; an integer beyond the int/str conversion limit cannot even be written on the line
+    protocol: the marker stands in (cases that return it are not compared with the model, see run_real)."""
+    if isinstance(v, int) and not isinstance(v, bool) and abs(v) >= 10 ** 4000:
+        return BIGINT
+    return v
+
+
+def _enc_beh(b, observed=None):
     if b[0] == "ret":
-        return ["ret", materialise(b[1])]
+        return ["ret", _model_value(materialise(b[1]))]
     if b[0] == "echo":
         return ["echo"]
-    cls = EXC[b[1]]
-    # the model is given `str(exception)` (KeyError quotes its argument)
-    return ["raise", b[1], str(cls(b[2])), issubclass(cls, TypeError), issubclass(cls, AttributeError)]
+    if b[0] == "expr":
+        return _enc_exc(expr_error(b[1]), 1)
+    if b[0] == "opaque":
+        rows = []
+        for params, out in (observed or {}).get(opaque_key(b), []):
+            rows.append([params, ["ret", _model_value(out[1])] if out[0] == "ret" else _enc_exc(out[1], out[2])])
+        return ["ptable", rows, ["ret", "<argument value not observed>"]]
+    return _enc_exc(make_exc(b), beh_depth(b))
 
 
 def _enc_dispfn(d):
@@ -131,21 +235,25 @@ def _enc_dispfn(d):
     return _enc_beh(d)
 
 
-def _enc_callable(c):
-    return [list(c[0]), _enc_beh(c[1])]
+def _enc_callable(c, observed=None):
+    return [list(c[0]), _enc_beh(c[1], observed)]
 
 
-def _enc_attr(a):
-    return [None if a[0] is None else _enc_callable(a[0]), [[n, _enc_attr(x)] for n, x in a[1]]]
+def _enc_attr(a, observed=None):
+    if a == "none":
+        return "none"
+    return [None if a[0] is None else _enc_callable(a[0], observed), [[n, _enc_attr(x, observed)] for n, x in a[1]]]
 
 
-def enc_registry(desc):
+def enc_registry(desc, observed=None):
+    """`observed`: {opaque key: [(params, outcome), ..]} — what each opaque callable does on the argument values of the
+    case (observe_opaque)."""
     inst = desc.get("inst")
     struct = {
-        "funcs": [[n, _enc_callable(c)] for n, c in desc.get("funcs", [])],
+        "funcs": [[n, _enc_callable(c, observed)] for n, c in desc.get("funcs", [])],
         "inst": None if inst is None else {
             "dispatch": _enc_dispfn(inst.get("dispatch")),
-            "attrs": [[n, _enc_attr(a)] for n, a in inst.get("attrs", [])]},
+            "attrs": [[n, _enc_attr(a, observed)] for n, a in inst.get("attrs", [])]},
         "custom": _enc_dispfn(desc.get("custom")),
     }
     return enc(struct)
@@ -176,25 +284,150 @@ def _run_beh(b, params):
         return materialise(b[1])
     if b[0] == "echo":
         return params
-    raise EXC[b[1]](b[2])
+    if b[0] == "expr":
+        raise expr_error(b[1])
+    raise make_exc(b)
 
 
-def make_def(sig, name, target, beh, log):
-    """A real `def` with the described signature; logs (target, name, callee view, in main thread)."""
+def _run_beh3(b, params):
+    return _run_beh(b, params)
+
+
+def make_def(sig, name, target, beh, log, first=None):
+    """A real `def` with the described signature; logs (target, name, callee view, in main thread) and then behaves:
+    the `raise` statement or the TypeError-producing expression stands in the def's *own* body when the behaviour says
+    depth 1 (the traceback then ends in the frame of the registered function itself), in a helper for depth 2, two
+    helpers down for depth 3.  `first`: name of a leading parameter (`self` of a `__call__`)."""
     names, nd, star, kw = sig
     nreq = len(names) - nd
-    ps = [n if i < nreq else "%s=_D" % n for i, n in enumerate(names)]
+    ps = ([first] if first else []) + [n if i < nreq else "%s=_D" % n for i, n in enumerate(names)]
     if star:
         ps.append("*args")
     if kw:
         ps.append("**kwargs")
-    src = "def _f(%s):\n    _log.append(('call', _target, _name, ([%s], %s, %s), _main()))\n    return _run(_beh, None)\n" % (
-        ", ".join(ps), ", ".join(names), "list(args)" if star else "[]", "dict(kwargs)" if kw else "{}")
-    env = {"_D": _D, "_log": log, "_target": target, "_name": name, "_main": _main_thread, "_run": _run_beh, "_beh": beh}
+    if beh[0] == "expr":
+        action = EXPR_SOURCE[beh[1]]
+    elif beh[0] == "raise" and beh_depth(beh) == 1:
+        action = "raise _mk(_beh)"
+    elif beh[0] == "raise" and beh_depth(beh) == 3:
+        action = "return _run3(_beh, None)"
+    else:
+        action = "return _run(_beh, None)"
+    src = "def _f(%s):\n    _log.append(('call', _target, _name, ([%s], %s, %s), _main()))\n    %s\n" % (
+        ", ".join(ps), ", ".join(names), "list(args)" if star else "[]", "dict(kwargs)" if kw else "{}", action)
+    env = {"_D": _D, "_log": log, "_target": target, "_name": name, "_main": _main_thread, "_run": _run_beh, "_run3": _run_beh3,
+           "_mk": make_exc, "_beh": beh, "_noargs": _noargs, "_none": None}
     exec(src, env)  # noqa: S102 - generated from a closed grammar of identifiers
     f = env["_f"]
     f.__name__ = "generated"
     return f
+
+
+# ---- opaque callables: builtins, partials, callable objects, decorated functions
+
+BUILTINS = {"len": len, "dict": dict, "abs": abs, "divmod": divmod, "sorted": sorted}
+SIG_ANY = [[], 0, True, True]
+
+
+def opaque_key(beh):
+    return json.dumps(beh[1:], sort_keys=True)
+
+
+def make_opaque(beh, name, target, log):
+    """The registered object of an `opaque` behaviour."""
+    kind, spec = beh[1], beh[2]
+    if kind == "builtin":
+        return BUILTINS[spec]
+    if kind == "partial":
+        return functools.partial(make_def(spec["sig"], name, target, spec["beh"], log), *spec.get("bound", []))
+    if kind == "object":
+        cls = type("CallableObject", (object,), {"__call__": make_def(spec["sig"], name, target, spec["beh"], log, first="self")})
+        return cls()
+    if kind == "deco":
+        inner = make_def(spec["sig"], name, target, spec["beh"], log)
+
+        def wrapper(*args, **kwargs):
+            return inner(*args, **kwargs)
+        return wrapper
+    raise ValueError("unknown opaque kind %r" % (kind,))
+
+
+def call_with(f, params):
+    """The call convention of the properties: a positional list is spread, a keyword map is passed by name."""
+    if isinstance(params, list):
+        return f(*params)
+    return f(**params)
+
+
+def observe(f, params):
+    """What the callable does on this argument value, by Python itself: ('ret', value) or ('raise', exception, depth) with
+    depth = number of traceback entries below the calling frame (0: the exception carries no frame of the callee)."""
+    try:
+        # the call is made from this very frame, like `func(*params)` in the frame of `_dispatch`
+        if isinstance(params, list):
+            return ("ret", f(*params))
+        return ("ret", f(**params))
+    except Exception as ex:  # noqa: BLE001
+        depth = 0
+        tb = ex.__traceback__.tb_next
+        while tb is not None:
+            depth += 1
+            tb = tb.tb_next
+        return ("raise", ex, depth)
+
+
+def opaque_callables(desc):
+    """[(target, dotted name, beh)] of the opaque callables of a registry."""
+    out = []
+    for n, c in desc.get("funcs", []):
+        if c[1][0] == "opaque":
+            out.append(("func", n, c[1]))
+
+    def walk(prefix, children):
+        for n, a in children:
+            if a == "none":
+                continue
+            if a[0] is not None and a[0][1][0] == "opaque":
+                out.append(("attr", prefix + n, a[0][1]))
+            walk(prefix + n + ".", a[1])
+    walk("", (desc.get("inst") or {}).get("attrs", []))
+    return out
+
+
+def opaque_names(desc):
+    return set((t, n) for t, n, _b in opaque_callables(desc))
+
+
+def request_params(loaded):
+    """The `params` values of the entries of a loaded request body (what the dispatcher will hand to the callables)."""
+    entries = loaded if isinstance(loaded, list) else [loaded]
+    out = []
+    for e in entries:
+        if isinstance(e, dict):
+            p = e.get("params", [])
+            if isinstance(p, (list, dict)) and p not in out:
+                out.append(p)
+    return out
+
+
+def observe_opaque(desc, loaded):
+    """{opaque key: [(params, outcome)]}: every opaque callable of the registry run on a twin with every argument value of
+    the request, and whether the twin's inner def was entered (for the invocation counters)."""
+    obs = {}
+    ps = None
+    for target, name, beh in opaque_callables(desc):
+        k = opaque_key(beh)
+        if k in obs:
+            continue
+        if ps is None:
+            ps = request_params(loaded)
+        rows = []
+        for p in ps:
+            tmp = []
+            out = observe(make_opaque(beh, name, target, tmp), p)
+            rows.append((p, out + (len(tmp),)))
+        obs[k] = rows
+    return obs
 
 
 def make_dispfn(d, target, log):
@@ -208,10 +441,18 @@ def make_dispfn(d, target, log):
     return fn
 
 
+def make_callable(c, name, target, log):
+    if c[1][0] == "opaque":
+        return make_opaque(c[1], name, target, log)
+    return make_def(c[0], name, target, c[1], log)
+
+
 def make_attr(a, path, log):
+    if a == "none":
+        return None
     c, children = a
     if c is not None:
-        node = make_def(c[0], path, "attr", c[1], log)
+        node = make_callable(c, path, "attr", log)
     else:
         node = types.SimpleNamespace()
     for n, x in children:
@@ -270,7 +511,7 @@ class Real(object):
         self.disp = S.SimpleJSONRPCDispatcher(config=self.cfg)
         self.funcs = {}
         for name, c in desc.get("funcs", []):
-            f = make_def(c[0], name, "func", c[1], self.log)
+            f = make_callable(c, name, "func", self.log)
             self.funcs[name] = f
             self.disp.register_function(f, name)
         inst = desc.get("inst")
@@ -304,7 +545,10 @@ class Real(object):
         h = S.SimpleJSONRPCRequestHandler.__new__(S.SimpleJSONRPCRequestHandler)
         h.server = srv
         h.path = "/"
-        h.headers = {"content-length": str(len(data))}
+        # what http.server hands to a handler: a case-insensitive message object
+        h.headers = email.message.Message()
+        h.headers["Content-Length"] = str(len(data))
+        h.headers["Content-Type"] = "application/json-rpc"
         h.rfile = io.BytesIO(data)
         h.wfile = io.BytesIO()
         h.request_version = "HTTP/1.1"
@@ -349,7 +593,7 @@ def python_binds(sig, params):
 # canonical forms
 
 _SERVER_ERROR = re.compile(r"^Server error: .*? \| (?:[A-Za-z_][\w.]*\.)?([A-Za-z_]\w*)(?:: (.*))?$", re.S)
-_SERIALIZE = re.compile(r"^TypeError:(Object of type .+ is not JSON serializable|keys must be str, int, float, bool or None, not .+)$")
+_SERIALIZE = re.compile(r"^TypeError:(Object of type .+ is not JSON serializable|keys must be str, int, float, bool or None, not .+)$", re.S)
 
 MSG_PARSE = "Request <data> invalid. (<error>)"
 MSG_NOVERSION = "Request <request> invalid."
@@ -410,7 +654,30 @@ def canon_real_reply(kind, val):
     return ("doc", canon_doc(doc))
 
 
+def strip_opaque_effects(effects, desc):
+    """Calls of opaque callables are not compared in the correspondence (a builtin cannot log; a partial / decorated
+    function logs in its inner def, i.e. after its own binding): the monitors count them where a log exists."""
+    names = opaque_names(desc)
+    if not names:
+        return effects
+    out = []
+    for e in effects:
+        parts = e.split(" ", 3)
+        if parts[0] == "call" and len(parts) > 2 and any(parts[1] == t and parts[2] == enc(n) for t, n in names):
+            continue
+        out.append(e)
+    return out
+
+
 def canon_effect_real(e, desc_sigs):
+    try:
+        return _canon_effect_real(e, desc_sigs)
+    except (UnicodeEncodeError, pyval.Unencodable):
+        # lone surrogates / foreign values: such cases are not compared with the model (the request is unencodable too)
+        return "%s ?unencodable" % (e[0],)
+
+
+def _canon_effect_real(e, desc_sigs):
     if e[0] == "enqueue":
         return "enqueue %s %s %s %s" % ("T" if e[1] else "F", enc(e[2]), enc(e[3]), "-" if e[1] else int(round(e[4] * 10)))
     _, target, name, view, _main = e
@@ -440,7 +707,7 @@ def sig_of(desc, target, name):
             if n == seg:
                 node = a
                 break
-        if node is None:
+        if node is None or node == "none":
             return None
         children = node[1]
     return node[0][0] if node is not None and node[0] is not None else None
@@ -485,12 +752,24 @@ def canon_model_line(line, desc):
             e = d.get("error") if isinstance(d, dict) else None
             if isinstance(e, dict) and isinstance(e.get("message"), str) and e["message"].startswith("Unmodelled:"):
                 return ("unmodelled",), []
-    return reply, [canon_effect_model(t, desc) for t in eff_t[1]]
+    return reply, strip_opaque_effects([canon_effect_model(t, desc) for t in eff_t[1]], desc)
 
 
 def struct_key(v):
     """Type-strict comparable form of a JSON structure (1 != 1.0 != True)."""
-    return pyval.enc(v, obj_hook, canon=True)
+    try:
+        return pyval.enc(v, obj_hook, canon=True)
+    except (UnicodeEncodeError, pyval.Unencodable):
+        # lone surrogates / non-finite floats cannot travel on the line protocol: a Python-level strict form
+        return "py:" + _strict_repr(v)
+
+
+def _strict_repr(v):
+    if isinstance(v, dict):
+        return "{" + ",".join(sorted("%s:%s" % (_strict_repr(k), _strict_repr(x)) for k, x in v.items())) + "}"
+    if isinstance(v, (list, tuple)):
+        return type(v).__name__ + "[" + ",".join(_strict_repr(x) for x in v) + "]"
+    return "%s(%s)" % (type(v).__name__, ascii(v))
 
 
 # --------------------------------------------------------------------------------------------
@@ -518,7 +797,80 @@ RAISES = [
 ]
 
 RETS = [["ret", 3], ["ret", None], ["ret", 0], ["ret", ""], ["ret", "résultat"], ["ret", [1, [2]]], ["ret", {"k": [None]}],
-        ["ret", False], ["ret", 1.5], ["ret", RAISING], ["ret", {"__jsonclass__": ["x"]}], ["ret", []], ["ret", {}]]
+        ["ret", False], ["ret", 1.5], ["ret", RAISING], ["ret", {"__jsonclass__": ["x"]}], ["ret", []], ["ret", {}],
+        ["ret", TUPLEKEY], ["ret", SETVAL]]
+
+LONG_TEXT = ("cannot open {0} {} %s %(user)d 100% /very/long/path " * 110).strip()     # > 5000 characters, one line
+TEXTS = ["boom", "", " ", "  leading and trailing  ", "a: b | c", "{0} {} {name!r}", "100% %s %d %(x)s", "hé 日本 \U0001f600",
+         "Server error: x | KeyError: 'y'", "TypeError:fake", "x" * 300, LONG_TEXT, "tab\there", "quote \" back \\ slash"]
+ARG_LISTS = [[], [""], ["one"], [1], [None], ["a", "b"], [2, "No such file or directory"], [1, 2, 3], [["nested"], {"k": 1}],
+             ["$bytes"], ["$opaque"], ["$frozenset", "$tuple"], ["$exc"], [1.5, True], ["text", "$bytes", 3]]
+
+
+def random_raise(rng):
+    """A raising behaviour over the whole space: every ordinary builtin exception class (+ 3 user classes), built with no /
+    one / many / non-JSON arguments or a text of 0..5000 characters with braces and percent signs, raised in the def's own
+    frame (depth 1), in a helper (2) or two helpers down (3), or produced by an expression of the body."""
+    r = rng.random()
+    if r < 0.12:
+        return ["expr", rng.choice(sorted(EXPR_SOURCE))]
+    cls = rng.choice(sorted(EXC))
+    depth = rng.choice([1, 1, 2, 3])
+    if cls in SPECIAL_ARGS:
+        return ["raise", cls, None, {"depth": depth}]
+    if rng.random() < 0.5:
+        return ["raise", cls, rng.choice(TEXTS), {"depth": depth}]
+    return ["raise", cls, None, {"depth": depth, "args": rng.choice(ARG_LISTS)}]
+
+
+def _opaque(kind, spec):
+    return [SIG_ANY, ["opaque", kind, spec]]
+
+
+def _funcs_depth():
+    """Callables that raise at frame depth 0 / 1 / 2 / 3 and behind a decorator, TypeErrors produced by expressions of the
+    body itself, registered builtins, partials and callable objects, results the JSON library rejects."""
+    te = lambda d: ["raise", "TypeError", "raised in the body at depth %d" % d, {"depth": d}]  # noqa: E731
+    return [
+        ["add", [SIGS[2], ["ret", 3]]],
+        ["te1", [SIGS[1], te(1)]], ["te2", [SIGS[1], te(2)]], ["te3", [SIGS[1], te(3)]],
+        ["subte1", [SIGS[5], ["raise", "MyTypeError", "subclass in own frame", {"depth": 1}]]],
+        ["concat", [SIGS[1], ["expr", "concat"]]], ["len5", [SIGS[5], ["expr", "len"]]],
+        ["miscall", [SIGS[0], ["expr", "miscall"]]], ["nonecall", [SIGS[3], ["expr", "nonecall"]]],
+        ["ve1", [SIGS[5], ["raise", "ValueError", "own frame", {"depth": 1}]]],
+        ["noargs_exc", [SIGS[5], ["raise", "KeyError", None, {"depth": 1, "args": []}]]],
+        ["manyargs", [SIGS[5], ["raise", "OSError", None, {"depth": 2, "args": [2, "No such file or directory"]}]]],
+        ["conn", [SIGS[5], ["raise", "ConnectionResetError", "peer went away", {"depth": 1}]]],
+        ["nonjson", [SIGS[5], ["raise", "LookupError", None, {"depth": 1, "args": ["$bytes", "$opaque"]}]]],
+        ["udec", [SIGS[5], ["raise", "UnicodeDecodeError", None, {"depth": 1}]]],
+        ["longtext", [SIGS[5], ["raise", "ValueError", LONG_TEXT, {"depth": 1}]]],
+        ["fmt", [SIGS[5], ["raise", "RuntimeError", "{0} {} %s %(x)d 100%", {"depth": 2}]]],
+        ["stopit", [SIGS[5], ["raise", "StopIteration", "v", {"depth": 1}]]],
+        ["len", _opaque("builtin", "len")], ["dict", _opaque("builtin", "dict")], ["abs", _opaque("builtin", "abs")],
+        ["divmod", _opaque("builtin", "divmod")],
+        ["part", _opaque("partial", {"sig": SIGS[2], "beh": ["ret", "partial"], "bound": [1]})],
+        ["partboom", _opaque("partial", {"sig": SIGS[1], "beh": ["raise", "TypeError", "inside a partial", {"depth": 1}], "bound": []})],
+        ["obj", _opaque("object", {"sig": SIGS[3], "beh": ["ret", "object"]})],
+        ["objte", _opaque("object", {"sig": SIGS[1], "beh": ["expr", "concat"]})],
+        ["deco", _opaque("deco", {"sig": SIGS[2], "beh": ["ret", "decorated"]})],
+        ["decote", _opaque("deco", {"sig": SIGS[1], "beh": ["raise", "TypeError", "behind a decorator", {"depth": 1}]})],
+        ["tuplekey", [SIGS[5], ["ret", TUPLEKEY]]], ["setres", [SIGS[5], ["ret", SETVAL]]], ["bigint", [SIGS[5], ["ret", BIGINT]]],
+        ["badser", [SIGS[5], ["ret", RAISING]]],
+    ]
+
+
+def _attrs_depth():
+    leaf = lambda sig, beh: [[sig, beh], []]  # noqa: E731
+    return [
+        ["nothing", "none"],
+        ["number", [None, []]],
+        ["ns", [None, [["nothing", "none"], ["te1", leaf(SIGS[1], ["raise", "TypeError", "attribute, own frame", {"depth": 1}])],
+                       ["len", [_opaque("builtin", "len"), []]],
+                       ["deco", [_opaque("deco", {"sig": SIGS[1], "beh": ["ret", "ns.deco"]}), []]]]]],
+        ["obj", [_opaque("object", {"sig": SIGS[2], "beh": ["ret", "inst object"]}), []]],
+        ["ok", leaf(SIGS[5], ["ret", "ok"])],
+    ]
+
 
 
 def _funcs_basic():
@@ -575,6 +927,18 @@ REGISTRIES = {
                   "te": ["raise", "TypeError", "custom type error"], "badser": ["ret", RAISING], "none": ["ret", None]},
         ["raise", "KeyError", "no such method"]]},
     "customecho": {"funcs": [], "inst": None, "custom": ["echo"]},
+    "depth": {"funcs": _funcs_depth(), "inst": {"dispatch": None, "attrs": _attrs_depth()}, "custom": None},
+    "customraise": {"funcs": [], "inst": None, "custom": [
+        "table", {"noargs": ["raise", "KeyError", None, {"args": []}], "many": ["raise", "OSError", None, {"args": [2, "x"]}],
+                  "nonjson": ["raise", "ValueError", None, {"args": ["$bytes"]}], "long": ["raise", "RuntimeError", LONG_TEXT],
+                  "fmt": ["raise", "ValueError", "{0} {} %s"], "tk": ["ret", TUPLEKEY], "stop": ["raise", "StopIteration", None, {"args": []}],
+                  "ok": ["ret", 1]},
+        ["raise", "IndexError", None, {"args": []}]]},
+    "instraise": {"funcs": [], "inst": {"dispatch": [
+        "table", {"noargs": ["raise", "RuntimeError", None, {"args": []}], "many": ["raise", "ConnectionResetError", None, {"args": [104, "reset"]}],
+                  "nonjson": ["raise", "KeyError", None, {"args": ["$opaque"]}], "tk": ["ret", TUPLEKEY], "ok": ["ret", 1],
+                  "ae": ["raise", "AttributeError", "falls through"]},
+        ["raise", "LookupError", None, {"args": []}]], "attrs": _attrs_depth()}, "custom": None},
 }
 
 METHODS = {
@@ -588,12 +952,35 @@ METHODS = {
     "customecho": ["anything", "x.y", "_z"],
 }
 METHODS["both"] = METHODS["funcs"] + METHODS["inst"]
+METHODS["depth"] = [n for n, _ in _funcs_depth()] + ["nothing", "number", "ns.nothing", "ns.nothing.real", "ns.te1", "ns.len", "ns.deco",
+                                                     "obj", "ok", "nothing.real", "number.real"]
+METHODS["customraise"] = ["noargs", "many", "nonjson", "long", "fmt", "tk", "stop", "ok", "other"]
+METHODS["instraise"] = ["noargs", "many", "nonjson", "tk", "ok", "ae", "other", "ns.te1"]
+NEW_REGISTRIES = ["depth", "customraise", "instraise"]
+
+
+def name_variants(name):
+    """Mutations of a registered name that are *different* names: padded, case-changed, NUL / dot / Unicode look-alikes whose
+    NFKC form is the registered name.  Each must be answered as the name it is (unknown unless registered itself)."""
+    full = "".join(chr(ord(c) + 0xFEE0) if "!" <= c <= "~" else c for c in name)          # fullwidth forms: NFKC -> name
+    return [" " + name, name + " ", "\t" + name, name + "\n", name + "\x00", "\x00" + name, name.upper(), name.capitalize(),
+            name.swapcase(), full, name + ".", "." + name, name + "\u200b", "\ufeff" + name, name[:1] + "\u0301" + name[1:]]
+
 
 PARAMS = ["absent", [], [1], [1, 2], [1, 2, 3], [[1], {"a": 2}], {}, {"a": 1}, {"a": 1, "b": 2}, {"b": 2}, {"c": 3},
           {"a": 1, "b": 2, "c": 3}, {"x": None}, {"a": 1, "not an identifier": 2}, {"": 0}]
 BAD_PARAMS = [1, "s", None, True, 1.5, 0, ""]
 IDS = ["absent", None, "", 0, -1, 1.5, "s", True, False, [1, "a"], {"k": [1]}, 2 ** 53, "0", 0.0, -0.0, 1e-320, [], {}, " ",
-       "é", [None], 10 ** 30]
+       "é", [None], 10 ** 30, "\ud800", "a\udc00b", "\U0001f600", ["\udfff"], 1.7976931348623157e308, "\x00"]
+# raw texts: numbers that overflow a double are read as ±inf by the standard parser.  DESIGN 3.2: floats are finite — such
+# bodies are outside the monitored domain (like the NaN/Infinity literals); they are generated so that the check is seen
+# not to crash on them, and counted as `nondomain`.
+OVERFLOW_TEXTS = [
+    '{"jsonrpc": "2.0", "id": 1e400, "method": "add", "params": [1, 2]}',
+    '{"jsonrpc": "2.0", "id": 1, "method": "one", "params": [-1e999]}',
+    '[{"jsonrpc": "2.0", "id": 1, "method": "add", "params": [1, 2]}, {"jsonrpc": "2.0", "id": -1E+400, "method": "add", "params": [1, 2]}]',
+    '{"jsonrpc": "2.0", "id": NaN, "method": "add", "params": [1, 2]}',
+]
 NOTIF_IDS = ["absent", None, ""]
 JSONRPC = ["absent", "2.0", "1.0", 2, 2.0, None, "", "x", [], {}, 0, False, 3]
 BAD_METHODS = ["absent", None, "", 0, 1, True, False, 1.5, [], ["add"], {}, {"add": 1}]
@@ -618,17 +1005,35 @@ def random_sig(rng):
 
 
 def random_registry(rng):
+    def rraise():
+        return rng.choice(RAISES) if rng.random() < 0.4 else random_raise(rng)
+
+    def rcallable():
+        r = rng.random()
+        if r < 0.08:
+            return _opaque("builtin", rng.choice(sorted(BUILTINS)))
+        beh = rng.choice(RETS) if rng.random() < 0.55 else rraise()
+        if r < 0.14:
+            return _opaque("partial", {"sig": random_sig(rng), "beh": beh, "bound": rng.choice([[], [1], [1, 2]])})
+        if r < 0.20:
+            return _opaque("object", {"sig": random_sig(rng), "beh": beh})
+        if r < 0.26:
+            return _opaque("deco", {"sig": random_sig(rng), "beh": beh})
+        return [random_sig(rng), beh]
+
     funcs = []
     for i in range(rng.randint(1, 4)):
-        beh = rng.choice(RETS) if rng.random() < 0.6 else rng.choice(RAISES)
-        funcs.append(["f%d" % i, [random_sig(rng), beh]])
+        funcs.append(["f%d" % i, rcallable()])
 
     def rattr(depth):
+        if rng.random() < 0.08:
+            return "none"
         c = None
         if rng.random() < 0.7:
-            c = [random_sig(rng), rng.choice(RETS) if rng.random() < 0.6 else rng.choice(RAISES)]
+            c = rcallable()
         ch = []
-        if depth > 0:
+        # a builtin cannot be given attributes
+        if depth > 0 and not (c is not None and c[1][0] == "opaque" and c[1][1] == "builtin"):
             for n in rng.sample(["m", "n", "_p", "q", "__r"], rng.randint(0, 3)):
                 ch.append([n, rattr(depth - 1)])
         return [c, ch]
@@ -637,10 +1042,10 @@ def random_registry(rng):
     if rng.random() < 0.6:
         inst = {"dispatch": None, "attrs": [[n, rattr(2)] for n in rng.sample(["m", "n", "_p", "q", "f0"], rng.randint(1, 4))]}
         if rng.random() < 0.25:
-            inst["dispatch"] = ["table", {"m": rng.choice(RETS), "n": rng.choice(RAISES), "q": ["echo"]}, rng.choice(RAISES)]
+            inst["dispatch"] = ["table", {"m": rng.choice(RETS), "n": rraise(), "q": ["echo"]}, rraise()]
     custom = None
     if rng.random() < 0.2:
-        custom = ["table", {"f0": rng.choice(RETS), "m": rng.choice(RAISES), "q": ["echo"]}, rng.choice(RAISES + RETS)]
+        custom = ["table", {"f0": rng.choice(RETS), "m": rraise(), "q": ["echo"]}, rng.choice([rraise(), rng.choice(RETS)])]
     return {"funcs": funcs, "inst": inst, "custom": custom}
 
 
@@ -653,7 +1058,8 @@ def registry_methods(desc, rng=None):
         for n, a in children:
             p = prefix + n
             out.append(p)
-            walk(p + ".", a[1])
+            if a != "none":
+                walk(p + ".", a[1])
 
     if inst is not None:
         walk("", inst.get("attrs", []))
@@ -662,6 +1068,11 @@ def registry_methods(desc, rng=None):
     if desc.get("custom") is not None and desc["custom"][0] == "table":
         out.extend(desc["custom"][1].keys())
     out.extend(["nosuch", "m.nosuch", "_x", "m._x", "m.", ""])
+    if rng is not None and out:
+        base = [n for n in out[:8] if n]
+        for _ in range(3):
+            if base:
+                out.append(rng.choice(name_variants(rng.choice(base))))
     return out
 
 
@@ -733,14 +1144,27 @@ DESCRIPTORS = [
 
 def parse_outcome(body, cfg):
     """Token form of what the real `jsonrpclib.loads` makes of the body: `P <value>`, `E`, or None when the
-    value lies outside the value universe of the model (bytes, unknown instances)."""
+    value lies outside the value universe of the model (bytes, unknown instances, lone surrogates, non-finite floats)."""
     k, v = impl.outcome(jsonrpclib.loads, body, cfg)
     if k == "err":
         return "E", None
     try:
         return "P " + enc(v), v
-    except (pyval.Unencodable, RecursionError):
+    except (pyval.Unencodable, RecursionError, UnicodeEncodeError):
         return None, v
+
+
+def has_nonfinite(v, depth=0):
+    """Does a loaded value contain a float that is not finite (a literal such as 1e400 overflows to inf)?"""
+    if isinstance(v, float):
+        return math.isinf(v) or math.isnan(v)
+    if depth > 200:
+        return False
+    if isinstance(v, (list, tuple, set, frozenset)):
+        return any(has_nonfinite(x, depth + 1) for x in v)
+    if isinstance(v, dict):
+        return any(has_nonfinite(k, depth + 1) or has_nonfinite(x, depth + 1) for k, x in v.items())
+    return False
 
 
 def in_c02_domain(body):
@@ -754,11 +1178,51 @@ def in_c02_domain(body):
 
 class Result(object):
     __slots__ = ("case", "kind", "raw", "reply", "effects", "log", "loaded", "parse_error", "line", "model_reply",
-                 "model_effects", "post")
+                 "model_effects", "post", "observed")
 
 
 def make_case(reg, body, ver=2.0, uj=False, pool="absent", kind="", post=False):
     return {"reg": reg, "body": body, "ver": ver, "uj": uj, "pool": pool, "kind": kind, "post": post}
+
+
+def beh_of(desc, target, name):
+    """The behaviour descriptor behind an invocation-log entry."""
+    if target == "custom":
+        return _pick(desc["custom"], name) if desc.get("custom") else None
+    if target == "instDispatch":
+        d = (desc.get("inst") or {}).get("dispatch")
+        return _pick(d, name) if d else None
+    c = callable_of(desc, target, name) if isinstance(name, str) else None
+    return c[1] if c is not None else None
+
+
+def callable_of(desc, target, name):
+    if target == "func":
+        for n, c in desc.get("funcs", []):
+            if n == name:
+                return c
+        return None
+    children = (desc.get("inst") or {}).get("attrs", [])
+    node = None
+    for seg in name.split("."):
+        node = None
+        for n, a in children:
+            if n == seg:
+                node = a
+                break
+        if node is None or node == "none":
+            return None
+        children = node[1]
+    return node[0] if node is not None else None
+
+
+def _returns_bigint(beh):
+    if beh is None:
+        return False
+    if beh[0] == "opaque":
+        spec = beh[2]
+        return isinstance(spec, dict) and _returns_bigint(spec.get("beh"))
+    return beh[0] == "ret" and beh[1] == BIGINT
 
 
 def run_real(case):
@@ -770,21 +1234,29 @@ def run_real(case):
     token, loaded = parse_outcome(case["body"], real.cfg)
     res.parse_error = token == "E"
     res.loaded = loaded
+    res.observed = observe_opaque(desc, loaded) if token != "E" else {}
     k, v = real.dispatch(case["body"])
     res.kind, res.raw = k, v
     res.reply = canon_real_reply(k, v)
     res.log = list(real.log)
-    res.effects = [canon_effect_real(e, desc) for e in real.log if e[0] == "enqueue" or e[4]]
+    res.effects = strip_opaque_effects([canon_effect_real(e, desc) for e in real.log if e[0] == "enqueue" or e[4]], desc)
     if case.get("post") and case["pool"] != "full":
         real2 = Real(desc, case["ver"], case["uj"], case["pool"])
         try:
             res.post = real2.post(case["body"])
         except Exception as ex:  # noqa: BLE001
-            res.post = ("raised", repr(ex), None)
-    if token is None:
+            res.post = ("raised", "%s: %s" % (type(ex).__name__, str(ex)[:200]), None)
+    # the model's integers are unbounded: a result of more than sys.get_int_max_str_digits() digits (json.dumps raises
+    # ValueError) is not described by it
+    bigint = any(e[0] == "call" and _returns_bigint(beh_of(desc, e[1], e[2])) for e in real.log)
+    if token is None or bigint:
         res.line = None
     else:
-        res.line = "srv %s %s %s %s" % (enc_cfg(case["ver"], case["uj"]), enc_registry(desc), POOL_TOKEN[case["pool"]], token)
+        try:
+            res.line = "srv %s %s %s %s" % (enc_cfg(case["ver"], case["uj"]), enc_registry(desc, res.observed),
+                                            POOL_TOKEN[case["pool"]], token)
+        except (pyval.Unencodable, UnicodeEncodeError):
+            res.line = None
     return res
 
 
@@ -832,33 +1304,49 @@ def full_projection(reply, effects):
 UNSPEC = "unspecified"
 
 
+def _norm_json(v):
+    return json.loads(json.dumps(v))
+
+
 def json_same(a, b):
     """Same JSON value, type-strictly (0 is not false is not 0.0)."""
     try:
-        return struct_key(json.loads(json.dumps(a))) == struct_key(json.loads(json.dumps(b)))
-    except (TypeError, ValueError, pyval.Unencodable):
+        return struct_key(_norm_json(a)) == struct_key(_norm_json(b))
+    except (TypeError, ValueError, RecursionError):
         return False
 
 
 def json_able(v):
+    """Does the value have a JSON form (finite numbers only)?"""
     try:
-        json.dumps(v)
-        struct_key(json.loads(json.dumps(v)))
+        json.dumps(v, allow_nan=False)
         return True
-    except (TypeError, ValueError, pyval.Unencodable, RecursionError):
+    except (TypeError, ValueError, RecursionError):
         return False
 
 
-def _beh_expect(beh, uj, exp):
-    if beh[0] == "raise":
-        exp["code"] = -32603
-        exp["exc"] = (beh[1], str(EXC[beh[1]](beh[2])))
-    elif beh[0] == "ret" and beh[1] == RAISING:
+def _ret_expect(v, uj, exp):
+    if v == RAISING and isinstance(v, str):
         if uj:
             exp["code"] = -32603      # "return values whose conversion fails"
             exp["exc"] = ("ValueError", "cannot serialize")
         else:
-            exp["poison"] = True      # a result that is not JSON-representable: outside the domain
+            exp["code"] = UNSPEC      # a result without JSON form: the texts fix the id and the count, not the code
+    elif isinstance(v, str) and v in VALUE_MARKERS:
+        exp["code"] = UNSPEC
+    elif not json_able(v):
+        exp["code"] = UNSPEC
+    else:
+        exp["code"] = None
+
+
+def _beh_expect(beh, uj, exp):
+    ex = raised_exception(beh)
+    if ex is not None:
+        exp["code"] = -32603
+        exp["exc"] = (type(ex).__name__, str(ex))
+    elif beh[0] == "ret":
+        _ret_expect(beh[1], uj, exp)
     else:
         exp["code"] = None
 
@@ -869,21 +1357,22 @@ def _pick(d, method):
     return d
 
 
-def expect_entry(entry, desc, uj):
+def expect_entry(entry, desc, uj, observed=None):
     """
     answered : does the entry get a response object
-    id       : the id the response must carry
-    code     : expected error code, None for a result, UNSPEC when the property texts do not decide
+    id       : the id the response must carry (null when the entry has no id with a JSON value)
+    code     : expected error code; None for a result; a tuple of admissible codes; UNSPEC when the texts do not decide
     exc      : (class name, text) the -32603 message must mention
     calls    : {(target, name): n} invocations this entry must cause (None: not decided)
     notif    : a well-formed notification
     """
-    exp = {"answered": True, "id": None, "code": UNSPEC, "exc": None, "calls": {}, "notif": False, "poison": False}
+    exp = {"answered": True, "id": None, "code": UNSPEC, "exc": None, "calls": {}, "notif": False}
     if not isinstance(entry, dict):
         exp["code"] = -32600
         return exp
     rid = entry.get("id", None)
-    exp["id"] = rid
+    # "or null when that entry had no usable id": an id without JSON value (an instance, a set, tuple keys) cannot be echoed
+    exp["id"] = rid if json_able(rid) else None
     has_marker = "jsonrpc" in entry or "id" in entry
     method = entry.get("method")
     params = entry.get("params", [])
@@ -907,14 +1396,15 @@ def expect_entry(entry, desc, uj):
         return exp
     for name, c in desc.get("funcs", []):
         if name == method:
-            return _callable_expect(c, "func", method, params, uj, exp)
+            return _callable_expect(c, "func", method, params, uj, exp, observed)
     inst = desc.get("inst")
     if inst is None:
         exp["code"] = -32601
         return exp
     if inst.get("dispatch") is not None:
         beh = _pick(inst["dispatch"], method)
-        if beh[0] == "raise" and issubclass(EXC[beh[1]], AttributeError):
+        ex = raised_exception(beh)
+        if ex is not None and isinstance(ex, AttributeError):
             exp["code"] = UNSPEC       # falls through to attribute resolution: not described by the properties
             exp["calls"] = None
             return exp
@@ -930,6 +1420,9 @@ def expect_entry(entry, desc, uj):
     children = inst.get("attrs", [])
     node = None
     for s in segs:
+        if node == "none":
+            exp["code"] = -32601       # None has no public attribute
+            return exp
         node = None
         for n, a in children:
             if n == s:
@@ -938,15 +1431,42 @@ def expect_entry(entry, desc, uj):
         if node is None:
             exp["code"] = -32601
             return exp
-        children = node[1]
-    if node[0] is None:
-        exp["code"] = UNSPEC           # a non-callable attribute: outside the stated domain
+        children = node[1] if node != "none" else []
+    if node == "none" or node[0] is None:
+        exp["code"] = UNSPEC           # an attribute that is None / not callable: outside the stated domain; nothing can run
         return exp
-    return _callable_expect(node[0], "attr", method, params, uj, exp)
+    return _callable_expect(node[0], "attr", method, params, uj, exp, observed)
 
 
-def _callable_expect(c, target, method, params, uj, exp):
-    sig, beh = c
+def _observed_row(observed, beh, params):
+    want = struct_key(params)
+    for p, out in (observed or {}).get(opaque_key(beh), []):
+        if struct_key(p) == want:
+            return out
+    return None
+
+
+def _own_signature_binds(obj, params):
+    """Python's own verdict on whether the registered object accepts the arguments — by its *own* signature (a decorator
+    wrapper's `(*args, **kwargs)`, a partial's reduced signature); None when it publishes none (`dict`)."""
+    try:
+        sig = inspect.signature(obj, follow_wrapped=False)
+    except (TypeError, ValueError):
+        return None
+    try:
+        if isinstance(params, list):
+            sig.bind(*params)
+        else:
+            sig.bind(**params)
+        return True
+    except TypeError:
+        return False
+
+
+def _callable_expect(c, target, method, params, uj, exp, observed=None):
+    sig, beh = c[0], c[1]
+    if beh[0] == "opaque":
+        return _opaque_expect(beh, target, method, params, uj, exp, observed)
     if isinstance(params, dict) and not all(isinstance(k, str) for k in params):
         exp["code"] = -32602
         return exp
@@ -955,6 +1475,30 @@ def _callable_expect(c, target, method, params, uj, exp):
         return exp
     exp["calls"] = {(target, method): 1}
     _beh_expect(beh, uj, exp)
+    return exp
+
+
+def _opaque_expect(beh, target, method, params, uj, exp, observed):
+    """A builtin / partial / callable object / decorated function: judged by what Python itself does with a twin."""
+    out = _observed_row(observed, beh, params)
+    if out is None:
+        exp["code"] = UNSPEC
+        exp["calls"] = None
+        return exp
+    entered = out[-1]
+    exp["calls"] = {(target, method): entered} if entered else {}
+    binds = _own_signature_binds(make_opaque(beh, method, target, []), params)
+    if out[0] == "ret":
+        _ret_expect(out[1], uj, exp)
+        return exp
+    ex, depth = out[1], out[2]
+    if isinstance(ex, TypeError) and depth == 0:
+        # the callable refused the call without a frame of its own: an argument mismatch when its signature says so; when
+        # the arguments bind (len(5)) or no signature is published (dict(1)) the texts allow both readings
+        exp["code"] = -32602 if binds is False else (-32602, -32603)
+        return exp
+    exp["code"] = -32603
+    exp["exc"] = (type(ex).__name__, str(ex))
     return exp
 
 
@@ -968,10 +1512,19 @@ def expected_entries(r):
     except Exception:  # noqa: BLE001
         falsy = False
     if falsy:
-        return "nodata", [{"answered": True, "id": None, "code": -32600, "exc": None, "calls": {}, "notif": False, "poison": False}]
+        return "nodata", [{"answered": True, "id": None, "code": -32600, "exc": None, "calls": {}, "notif": False}]
     if isinstance(v, list):
-        return "batch", [expect_entry(e, desc, uj) for e in v]
-    return "single", [expect_entry(v, desc, uj)]
+        return "batch", [_unusable_id(e, expect_entry(e, desc, uj, r.observed)) for e in v]
+    return "single", [_unusable_id(v, expect_entry(v, desc, uj, r.observed))]
+
+
+def _unusable_id(entry, exp):
+    """An id without JSON value (a bean, a set, tuple keys) cannot be sent: the response of that entry is answered with a
+    null id, and the texts do not say with which code."""
+    if isinstance(entry, dict) and not json_able(entry.get("id", None)):
+        exp["code"] = UNSPEC
+        exp["exc"] = None
+    return exp
 
 
 def responses_of(r):
@@ -989,6 +1542,8 @@ def case_domain(r):
         return False       # a bounded, full notification queue: outside the quantifier of every property
     if not in_c02_domain(r.case["body"]):
         return False
+    if not r.parse_error and has_nonfinite(r.loaded):
+        return False       # DESIGN 3.2: floats are finite; a literal that overflows a double (1e400) is read as inf
     return True
 
 
@@ -1024,15 +1579,13 @@ def wf_response(d):
     return None
 
 
+def _reject_constant(name):
+    raise ValueError("non-standard literal %s" % name)
+
+
 def monitor_c02(r):
     if not case_domain(r):
         return None
-    if not r.parse_error:
-        try:
-            if any(e["poison"] for e in expected_entries(r)[1]):
-                return None     # a callable returned a value that is not JSON-representable: outside the domain
-        except Exception:  # noqa: BLE001
-            pass
     if r.kind == "err":
         return "dispatcher raised %s: %s" % (type(r.raw).__name__, str(r.raw)[:200])
     text = r.raw
@@ -1041,7 +1594,11 @@ def monitor_c02(r):
     if text == "":
         return None
     try:
-        doc = json.loads(text)
+        text.encode("utf-8")
+    except UnicodeEncodeError as ex:
+        return "reply is not a character sequence that can be sent (UTF-8): %s" % str(ex)[:120]
+    try:
+        doc = json.loads(text, parse_constant=_reject_constant)
     except ValueError as ex:
         return "reply is not JSON: %s" % ex
     if isinstance(doc, list):
@@ -1056,15 +1613,18 @@ def monitor_c02(r):
 
 
 def monitor_post(r):
-    """do_POST through a fake connection: status 200 and the same body as the dispatcher."""
+    """do_POST through a fake connection: it does not raise, answers once, never with a server-error status when the
+    dispatcher itself returned, and sends the dispatcher's reply as the body."""
     if r.post is None or not case_domain(r):
         return None
     status, body, _headers = r.post
     if status == "raised":
         return "do_POST raised %s" % body
-    if status != [200]:
-        return "do_POST answered status %r" % (status,)
+    if len(status) != 1:
+        return "do_POST sent %d status lines %r" % (len(status), status)
     if r.kind == "ok" and isinstance(r.raw, str):
+        if status[0] >= 500:
+            return "do_POST answered status %r although the dispatcher returned a reply" % (status[0],)
         a = canon_real_reply("ok", body.decode("utf-8"))
         if struct_key(list(a)) != struct_key(list(r.reply)):
             return "do_POST body differs from the dispatcher's reply"
@@ -1077,11 +1637,7 @@ def monitor_c03(r):
     if not case_domain(r) or r.parse_error or r.kind == "err":
         return None
     kind, exps = expected_entries(r)
-    if any(e["poison"] for e in exps):
-        return None
     answered = [e for e in exps if e["answered"]]
-    if not all(json_able(e["id"]) for e in answered):
-        return None        # an id that has no JSON value: outside "all id values"
     resp = responses_of(r)
     if resp is None:
         return None
@@ -1092,7 +1648,7 @@ def monitor_c03(r):
     if r.reply[0] == "empty":
         return "%d entries must be answered, the body is empty" % len(answered)
     if kind == "batch" and not isinstance(r.reply[1], list):
-        return "a batch must be answered with an array"
+        return "a batch must be answered with an array, the reply is the single object %r" % (r.raw[:200],)
     if kind != "batch" and isinstance(r.reply[1], list):
         return "a single request was answered with an array"
     if len(resp) != len(answered):
@@ -1115,19 +1671,29 @@ def call_counts(log):
 
 
 def monitor_c04(r):
-    """Notifications: never answered (count of responses), executed exactly once (invocation counters after the drain)."""
-    if not case_domain(r) or r.parse_error or r.kind == "err":
+    """Notifications: never answered (count of responses, HTTP body), executed exactly once (invocation counters after the
+    drain) — also when the dispatcher blows up on them."""
+    if not case_domain(r) or r.parse_error:
         return None
     kind, exps = expected_entries(r)
-    if any(e["poison"] for e in exps) or not any(e["notif"] for e in exps):
+    if not any(e["notif"] for e in exps):
         return None
+    if r.kind == "err":
+        return ("the dispatcher raised %s: %s on a body holding a well-formed notification (it must be executed once and "
+                "never answered)" % (type(r.raw).__name__, str(r.raw)[:120]))
+    if r.post is not None and all(e["notif"] for e in exps):
+        status, body, _h = r.post
+        if status == "raised":
+            return "do_POST raised %s on a notification" % body
+        if body:
+            return "a notification was answered over HTTP (status %r) with the body %r" % (status, body[:200])
     resp = responses_of(r)
     if resp is None:
         return None
     n_answer = len([e for e in exps if e["answered"]])
     if len(resp) > n_answer:
         return "%d response objects although only %d entries are not notifications" % (len(resp), n_answer)
-    if len(resp) < n_answer and all(json_able(e["id"]) for e in exps if e["answered"]):
+    if len(resp) < n_answer:
         return ("%d response objects although %d entries are not notifications (an id other than absent/null/'' was "
                 "taken for a notification)" % (len(resp), n_answer))
     if any(e["calls"] is None for e in exps):
@@ -1143,6 +1709,12 @@ def monitor_c04(r):
 
 
 # ---- C05 ------------------------------------------------------------------------------------
+
+def _code_ok(want, code):
+    if isinstance(want, tuple):
+        return code in want
+    return code == want
+
 
 def monitor_c05(r):
     if not case_domain(r):
@@ -1167,17 +1739,13 @@ def monitor_c05(r):
             return "parse failure, yet something was invoked: %r" % (r.log[:2],)
         return None
     kind, exps = expected_entries(r)
-    if any(e["poison"] for e in exps):
-        return None
     answered = [e for e in exps if e["answered"]]
-    ids_ok = all(json_able(e["id"]) for e in answered)
-    if ids_ok and len(resp) != len(answered):
+    if len(resp) != len(answered):
         rejected = [e["code"] for e in answered if isinstance(e["code"], int)]
         if rejected:
             return "%d responses for %d entries to answer, among them rejected ones (codes %r)" % (
                 len(resp), len(answered), sorted(set(rejected)))
-    # an id without JSON value makes the whole reply the single -32603 object (C02's domain note): codes not compared
-    if len(resp) == len(answered) and ids_ok:
+    if len(resp) == len(answered):
         for i, (d, e) in enumerate(zip(resp, answered)):
             if e["code"] == UNSPEC or not isinstance(d, dict):
                 continue
@@ -1187,21 +1755,24 @@ def monitor_c05(r):
                 if err is not None:
                     return "entry %d succeeds, answered with error %r" % (i, err)
                 continue
-            if code != e["code"]:
-                return "entry %d must fail with %d, answered %r" % (i, e["code"], d)
-            if e["code"] == -32603 and e["exc"]:
+            if not _code_ok(e["code"], code):
+                return "entry %d must fail with %r, answered %r" % (i, e["code"], str(d)[:400])
+            if code == -32603 and e["exc"]:
                 msg = err.get("message")
                 if not isinstance(msg, str) or e["exc"][0] not in msg or e["exc"][1] not in msg:
-                    return "entry %d: -32603 message %r does not name %s / %r" % (i, msg, e["exc"][0], e["exc"][1])
-    # rejected entries run nothing: the invocation counters are exactly those of the accepted entries
+                    return "entry %d: -32603 message %r does not name %s / %r" % (
+                        i, msg if not isinstance(msg, str) else msg[:300], e["exc"][0], e["exc"][1][:300])
+    # rejected entries run nothing: every invocation belongs to an entry that was accepted (how often an accepted entry
+    # runs is C04's and C01's business, not this property's)
     if all(e["calls"] is not None for e in exps):
-        want = {}
+        allowed = set()
         for e in exps:
-            for k, n in e["calls"].items():
-                want[k] = want.get(k, 0) + n
+            allowed.update(e["calls"])
         got = call_counts(r.log)
-        if want != got:
-            return "invocation counters %r, expected %r" % (sorted(got.items()), sorted(want.items()))
+        extra = sorted(k for k in got if k not in allowed)
+        if extra:
+            return "invoked %r although every entry naming it was rejected (expected invocations only of %r)" % (
+                extra, sorted(allowed))
     return None
 
 
@@ -1347,7 +1918,7 @@ def std_cases(ctx, em):
         cases.append(make_case(reg, body, ver=rng.choice([1.0, 2.0]) if ver is None else ver,
                                uj=(rng.random() < 0.35) if uj is None else uj, pool=pool, kind=kind, post=post))
 
-    regnames = ["funcs", "inst", "both", "instdisp", "custom", "customecho", "empty"]
+    regnames = ["funcs", "inst", "both", "instdisp", "custom", "customecho", "empty"] + NEW_REGISTRIES
     # a) single request objects
     if ctx.thorough and em.get("exhaustive_single"):
         for ver in (1.0, 2.0):
@@ -1414,15 +1985,73 @@ def std_cases(ctx, em):
         entries = random_batch(rng, 4, METHODS[rn])[1]
         entries.insert(rng.randint(0, len(entries)), {"jsonrpc": "2.0", "method": "add", "params": [1, 2]})
         add(REGISTRIES[rn], json.dumps(entries), "pool/full", pool="full")
-    # g) random registries: signatures x argument shapes, instance trees
+    # g) random registries: signatures x argument shapes, instance trees, the whole exception space, opaque callables
     for _ in range(int(ctx.budget(60, 1500) * em.get("randreg", 1))):
         desc = random_registry(rng)
-        ms = registry_methods(desc)
+        ms = registry_methods(desc, rng)
         for _i in range(5):
             m = rng.choice(ms)
             sig = sig_of(desc, "func", m) or sig_of(desc, "attr", m)
             req = build_request(rng.choice(["2.0", "absent"]), rng.choice([1, 1, "s", None, "absent", 0]), m, random_params(rng, sig))
             add(desc, json.dumps(req), "randreg")
+        if rng.random() < 0.3:
+            entries = [build_request("2.0", rng.choice([i, "absent"]), rng.choice(ms), random_params(rng)) for i in range(rng.randint(2, 5))]
+            add(desc, json.dumps(entries), "randreg/batch")
+    # h) frame depth of exceptions, expression TypeErrors, builtins / partials / callable objects / decorators, None attributes,
+    #    exceptions built without / with many / with non-JSON arguments, long texts, results the JSON library rejects:
+    #    every method of the three registries against a spread of argument values, as call and as notification, per version
+    depth_params = [[], [5], [[1, 2]], [1, 2], {"a": 1}, {"a": 1, "b": 2}, [1, 2, 3], {"obj": [1]}, {}]
+    for rn in NEW_REGISTRIES:
+        for m in METHODS[rn]:
+            for p in rng.sample(depth_params, int(ctx.budget(3, 9))):
+                add(REGISTRIES[rn], json.dumps(build_request("2.0", rng.choice([1, "x", 0]), m, p)), "depth/" + rn, post=rng.random() < 0.05)
+            add(REGISTRIES[rn], json.dumps(build_request(rng.choice(["2.0", "absent"]), rng.choice(["absent", None, ""]), m,
+                                                         rng.choice(depth_params))), "depth/notif", post=rng.random() < 0.3)
+        for _ in range(int(ctx.budget(6, 60))):
+            entries = [build_request(rng.choice(["2.0", "absent"]), rng.choice([i, i, "absent", None]), rng.choice(METHODS[rn]),
+                                     rng.choice(depth_params)) for i in range(rng.randint(2, 6))]
+            add(REGISTRIES[rn], json.dumps(entries), "depth/batch", pool=rng.choice(["absent", "absent", "accepting"]))
+    # i) names that are not the registered name: padded, case-changed, NUL, NFKC look-alikes
+    for rn in ("funcs", "inst", "depth", "instdisp", "custom"):
+        base = [n for n in registry_methods(REGISTRIES[rn]) if n and not n.startswith("_")][:14]
+        for n in rng.sample(base, min(len(base), int(ctx.budget(4, 14)))):
+            for v in rng.sample(name_variants(n), int(ctx.budget(4, 15))):
+                add(REGISTRIES[rn], json.dumps(build_request("2.0", 1, v, [1, 2])), "name-variant/" + rn)
+    # j) long batches: one response per entry, whatever the length
+    sizes = [64, 257] + ([1000] if ctx.budget(0, 1) or rng.random() < 0.34 else [])
+    for n in sizes:
+        entries = []
+        for i in range(n):
+            k = rng.random()
+            if k < 0.7:
+                entries.append({"jsonrpc": "2.0", "id": i, "method": "add", "params": [i, 1]})
+            elif k < 0.8:
+                entries.append({"jsonrpc": "2.0", "method": "noargs"})
+            elif k < 0.9:
+                entries.append({"jsonrpc": "2.0", "id": i, "method": "nosuch"})
+            else:
+                entries.append(i)
+        add(REGISTRIES["funcs"], json.dumps(entries), "batch/long%d" % n, uj=False)
+    add(REGISTRIES["funcs"], json.dumps([{"jsonrpc": "2.0", "id": i, "method": "add", "params": [i, 1]} for i in range(120)]),
+        "batch/long120", ver=2.0, uj=False, post=True)
+    # k) ids and members with escaped lone surrogates / non-BMP characters (valid JSON texts, pure ASCII on the wire), over
+    #    HTTP too; numbers that overflow a double (outside the domain, must not crash the check)
+    for rid in ["\ud800", "a\udc00b", ["\udfff"], "\U0001f600", {"k\ud83d": 1}]:
+        add(REGISTRIES["funcs"], json.dumps(build_request("2.0", rid, "add", [1, 2])), "surrogate/id", post=True)
+        add(REGISTRIES["funcs"], json.dumps([build_request("2.0", rid, "boom", []), build_request("2.0", 2, "add", [1, 2])]),
+            "surrogate/batch", post=True)
+    add(REGISTRIES["funcs"], json.dumps(build_request("2.0", 3, "one", ["\ud800"])), "surrogate/params", post=True)
+    add(REGISTRIES["funcs"], json.dumps(build_request("2.0", 3, "add\udc80", [])), "surrogate/method", post=True)
+    add(REGISTRIES["customecho"], json.dumps(build_request("2.0", 3, "e", ["\ud800\udc00", "\udc00\ud800"])), "surrogate/echo", post=True)
+    for t in OVERFLOW_TEXTS:
+        add(REGISTRIES["funcs"], t, "nondomain/overflow", post=True)
+    # l) results the JSON library rejects next to results it accepts, translation off and on
+    for uj in (False, True):
+        for m in ("tuplekey", "setres", "bigint", "badser"):
+            add(REGISTRIES["depth"], json.dumps(build_request("2.0", rng.choice([7, "x", [1]]), m, [])), "unserialisable/single", uj=uj)
+            add(REGISTRIES["depth"], json.dumps([build_request("2.0", 1, "add", [1, 2]), build_request(rng.choice(["2.0", "absent"]), 2, m, []),
+                                                 build_request("2.0", 3, "add", [3, 4])]), "unserialisable/batch", uj=uj,
+                post=rng.random() < 0.3)
     return cases
 
 
@@ -1467,11 +2096,15 @@ def standard_run(ctx, pid, monitors, project, em, rule):
                                   "P" if not r.parse_error else "E") if oc != "empty" or r.log else None,
                   kind=r.case["kind"].split("/")[0] + "/" + ("raise" if r.kind == "err" else oc.split(",")[0][:12]))
     ctx.extra["unmodelled_cases"] = unmodelled
+    ctx.extra["nondomain_cases"] = len([r for r in results if not case_domain(r)])
     ctx.assumptions.extend([
         "server model: instances of translated classes are truthy and compare unequal to None and '' (no __bool__/__len__/__eq__ overrides; Decimal/Fraction zero are not generated)",
         "server model: Python signatures without keyword-only / positional-only parameters; call binding validated against real defs on every run",
         "server model: the notification pool accepts tasks (unbounded queue, the default); a full bounded queue raises queue.Full out of the dispatcher (modelled, outside the properties' quantifier)",
         "server model: error message texts are compared as template tags (+ exception class and text for -32603), see harness/servercases.py canon_message",
+        "domain: floats are finite (DESIGN 3.2) — a body whose numbers overflow a double (1e400) or that uses NaN/Infinity is generated, run and counted (nondomain_cases) but not judged; raised classes are ordinary exceptions (subclasses of Exception) with single-line rendering (no SyntaxError family, no exception groups)",
+        "server model: a result integer of more than sys.get_int_max_str_digits() digits is not described by the model (judged by the monitors only)",
+        "opaque callables (builtins, partials, callable objects, decorated functions): their behaviour on each argument value of a case is observed on a twin by Python itself and handed to the model as a table (ptable); their invocations are counted by the monitors where the callable can log, and are not part of the effect-log correspondence",
         "values that the line protocol cannot carry (bytes, foreign instances) are skipped and counted as unmodelled_cases",
     ])
     return results
@@ -1546,12 +2179,19 @@ def proj_notif(reply, effects):
 
 
 def proj_codes(reply, effects):
-    """C05: error code and canonical message of every response, and the effect log."""
+    """C05: the error code of every response and — only where the property speaks of the message, i.e. for -32603 — the
+    canonical message (exception class and text); and the effect log.  The -32700/-32600/-32601/-32602 texts are not
+    compared: a reworded message is not a violation."""
     rs = _resp_list(reply)
     if rs is None:
         return [list(reply), effects]
     out = []
     for d in rs:
         e = d.get("error") if isinstance(d, dict) else None
-        out.append([e.get("code"), e.get("message")] if isinstance(e, dict) else "result")
+        if not isinstance(e, dict):
+            out.append("result")
+        elif e.get("code") == -32603:
+            out.append([e.get("code"), e.get("message")])
+        else:
+            out.append([e.get("code")])
     return [["doc", isinstance(reply[1], list), out], effects]
